@@ -92,6 +92,26 @@ fn create_cstore_response(
     ])
 }
 
+/// Build the name of the file in which to store an incoming instance.
+///
+/// The SOP instance UID is given by the peer and cannot be trusted:
+/// any character which is not expected in a UID,
+/// path separators in particular,
+/// is replaced with an underscore,
+/// so that the file is always created directly inside the output directory.
+fn instance_file_name(sop_instance_uid: &str) -> String {
+    let mut name: String = sop_instance_uid
+        .trim_end_matches('\0')
+        .chars()
+        .map(|c| match c {
+            'a'..='z' | 'A'..='Z' | '0'..='9' | '.' | '-' | '_' => c,
+            _ => '_',
+        })
+        .collect();
+    name.push_str(".dcm");
+    name
+}
+
 fn create_cecho_response(message_id: u16) -> InMemDicomObject<StandardDataDictionary> {
     InMemDicomObject::command_from_element_iter([
         DataElement::new(tags::COMMAND_FIELD, VR::US, dicom_value!(U16, [0x8030])),
@@ -230,5 +250,21 @@ mod tests {
     #[test]
     fn verify_cli() {
         App::command().debug_assert();
+    }
+
+    #[test]
+    fn instance_file_name_stays_in_directory() {
+        use crate::instance_file_name;
+        assert_eq!(instance_file_name("1.2.840.1\0"), "1.2.840.1.dcm");
+        assert_eq!(instance_file_name("../x"), ".._x.dcm");
+        assert_eq!(instance_file_name("/tmp/abs"), "_tmp_abs.dcm");
+        assert_eq!(instance_file_name("a\\b"), "a_b.dcm");
+        assert_eq!(instance_file_name(".."), "...dcm");
+        for uid in ["", ".", "..", "x/y", "/", "1.2\0/3"] {
+            let name = instance_file_name(uid);
+            let path = std::path::Path::new("out").join(&name);
+            assert_eq!(path.parent(), Some(std::path::Path::new("out")));
+            assert_eq!(path.file_name().and_then(|n| n.to_str()), Some(&*name));
+        }
     }
 }
